@@ -227,6 +227,13 @@ theorem c10_or_fault (env : Env) (hwf : WF env = true) (pre : List Spec) (c : Sp
   simp only [eval, boolGlomit_none]
   exact evalOr_fault (WF.facts hwf) pre c post t e hpre hc hg
 
+/-- Or passes **only if** some child passes, and then with that child's result (no `calm`
+    needed); `c10_or` is the converse, position by position -/
+theorem c10_or_only_if (env : Env) (cs : List Spec) (t r : V)
+    (h : (eval env (.or cs none) t).1 = .ok r) : ∃ c ∈ cs, (eval env c t).1 = .ok r := by
+  simp only [eval, boolGlomit_none] at h
+  exact evalOr_ok_mem env cs t r h
+
 /-! ### Not -/
 
 /-- Not inverts: it passes (with the target) iff its child rejects with a GlomError; if the
@@ -386,10 +393,12 @@ theorem c10_prog_checks (env : Env) (hwf : WF env = true) (steps : List Step)
     need not is `T` (`identityExempt`: harmless). -/
 theorem c10_copy_facts_wf : markersOK Generated.identityMarkers = true := by decide
 
-/-- **A copy of a spec decides like the spec**: a spec object that went through `copy.copy`,
-    `copy.deepcopy` or a pickle round trip gives every target the same outcome and runs the
-    same callables — for every marker table in which the markers survive (`c10_copy_facts_wf`
-    for this run's). -/
+/-- **A copy of a spec decides like the spec** — for every marker table in which the markers
+    survive (`c10_copy_facts_wf` for this run's).  Under that hypothesis `copySpec` is the identity
+    (`copySpec_id`), so this is a rewriting step: the content is in the marker facts, in the model
+    of copying (a default slot stays "absent" only if its marker survives:
+    `c10_copy_needs_marker_identity`), and in the copied cases of the correspondence, which alone
+    tie CPython's copy / pickle to that model. -/
 theorem c10_copy_invariant (env : Env) (ids : List (String × String × Bool)) (h : markersOK ids = true)
     (how : String) (hh : how ∈ ["copy", "deepcopy", "pickle"]) (s : Spec) (t : V) :
     eval env (copySpec ids how s) t = eval env s t := by
@@ -578,6 +587,15 @@ theorem c10_check_default (env : Env) (hwf : WF env = true) (o : CheckObj) (x t0
   have h := checkOn_rel (WF.facts hwf) o x t0
   rw [hd] at h
   exact ⟨h, checkOn_default_eq (WF.facts hwf) o x t0 d hd⟩
+
+/-- **Check's constructor**, against a reference written from the documentation of the arguments
+    (`checkObjRef`, independent of the model's transcription `checkInit` of `Check.__init__`): the
+    same argument errors in the same order, and otherwise the same conditions — `type` /
+    `instance_of` a type or a sequence of types, `equal_to=v` the one-element `one_of`, the plain
+    truthiness test exactly when no condition at all is given. -/
+theorem c10_check_ctor (a : CheckArgs) :
+    checkObjRef a = (match checkInit a with | .ok o => .ok o | .error e => .error e.cls) :=
+  checkObjRef_eq a
 
 /-- **The whole Check**, constructor and `spec=` subject included: `Check(spec, **kw)` that
     Python can construct reads its subject with the T expression (a failing access stays a
